@@ -484,3 +484,79 @@ def check_none_key_deref(ctx, functions, rule='A10d'):
     ctx.ob(rule, f'program:{rule}:scan', True, 'adsg_core', 'scan for None keys dereferenced',
            f'{scanned} functions scanned, {n} site(s)', nontrivial=False)
     return n
+
+
+# ---------------------------------------------------------------------- A10e: constant index into a filtered list
+def _filtered_list(v):
+    """Is v a list that may be empty because of a filter: `[.. for .. if c]`, possibly inside sorted()/list()/
+    tuple()/np.array()?"""
+    while isinstance(v, ast.Call) and v.args and norm(v.func).split('.')[-1] in ('sorted', 'list', 'tuple', 'array', 'set'):
+        v = v.args[0]
+    return isinstance(v, (ast.ListComp, ast.GeneratorExp, ast.SetComp)) and any(g.ifs for g in v.generators)
+
+
+def check_filtered_index(ctx, functions, rule='A10e'):
+    """`xs = [.. for .. if cond]` may be empty; `xs[k]` with a constant k needs a dominating length / emptiness
+    test of xs that excludes the lengths <= k (the test is evaluated over lengths 0..5)."""
+    from . import intcmp, guards
+    from ..cfg import build_cfg
+    from .common import walk_fn
+    n = 0
+    for fn in functions:
+        if isinstance(fn.node, ast.Lambda):
+            continue
+        cands = {}
+        for st in walk_fn(fn):
+            if isinstance(st, ast.Assign) and len(st.targets) == 1 and isinstance(st.targets[0], ast.Name) and \
+                    _filtered_list(st.value):
+                cands.setdefault(st.targets[0].id, []).append(st)
+        if not cands:
+            continue
+        cfg = build_cfg(fn)
+        for name, defs in cands.items():
+            # only names whose every definition is such a list
+            all_defs = [s for s in walk_fn(fn) if isinstance(s, (ast.Assign, ast.AugAssign, ast.AnnAssign, ast.For))
+                        and name in [t.id for t in ast.walk(s.targets[0] if isinstance(s, ast.Assign) else s.target)
+                                     if isinstance(t, ast.Name) and isinstance(t.ctx, ast.Store)]]
+            if len(all_defs) != len(defs):
+                continue
+            sinks = []
+            for nd in cfg.nodes:
+                if nd.ast is None or nd.kind not in ('stmt', 'test', 'for'):
+                    continue
+                exprs = [nd.ast] if nd.kind != 'for' else [nd.ast.iter]
+                for e in exprs:
+                    for sub in ast.walk(e):
+                        if isinstance(sub, ast.Subscript) and isinstance(sub.value, ast.Name) and sub.value.id == name \
+                                and isinstance(sub.ctx, ast.Load):
+                            k = None
+                            if isinstance(sub.slice, ast.Constant) and isinstance(sub.slice.value, int):
+                                k = sub.slice.value
+                            elif isinstance(sub.slice, ast.UnaryOp) and isinstance(sub.slice.op, ast.USub) and \
+                                    isinstance(sub.slice.operand, ast.Constant):
+                                k = -sub.slice.operand.value
+                            if k is not None:
+                                sinks.append((nd, k, sub))
+            for nd, k, sub in sinks:
+                need = k + 1 if k >= 0 else -k
+
+                def is_name(e):
+                    return isinstance(e, ast.Name) and e.id == name
+
+                def guard(atom, truth, need=need):
+                    try:
+                        vs = intcmp.value_set(atom, intcmp.is_len_of(is_name), domain=tuple(range(0, 7)))
+                    except intcmp.NotSimple:
+                        if is_name(atom):
+                            vs = frozenset(range(1, 7))
+                        else:
+                            return False
+                    if not any(isinstance(x, ast.Name) and x.id == name for x in ast.walk(atom)):
+                        return False
+                    allowed = vs if truth else frozenset(range(0, 7)) - vs
+                    return bool(allowed) and min(allowed) >= need
+                n += 1
+                guards.check_guarded(ctx, rule, fn, [nd], guard, [name], f'{name}[{k}]',
+                                     f'`{name}` is a filtered list and may be empty: `{name}[{k}]` is evaluated only '
+                                     f'where a test of its length excludes lengths below {need}')
+    return n
